@@ -95,12 +95,23 @@ def gen_history(rng, m, n_ops, reader_openers=READER_OPENERS, emu_openers=EMU_OP
                 ops.append(['call', rng.choice(same_kind), last[1]])
                 continue
         c = pick_call(slot)
+        if last is not None and last[1][0] == 'read_subvolume' and kind_of(slot) == 'reader' and rng.random() < 0.3:
+            c = _inner_box(rng, last[1])          # a box inside the previous one
         ops.append(['call', slot, c])
         last = (slot, c)
     if two_threads:
         for op in ops:
             op.append(1 if op[1] in (1, 3, 6) else 0)
     return ops
+
+
+def _inner_box(rng, call):
+    out = ['read_subvolume']
+    for lo, hi in ((call[1], call[2]), (call[3], call[4]), (call[5], call[6])):
+        lo2 = lo + rng.randint(0, max(0, (hi - lo - 1) // 2))
+        hi2 = hi - rng.randint(0, max(0, (hi - lo2 - 1) // 2))
+        out += [lo2, max(hi2, lo2 + 1)]
+    return out
 
 
 def op_thread(op):
